@@ -729,30 +729,31 @@ def classify_exception(case, rec):
     d['roadm_target_zero'] = any(r.get('target_pch_out_db') == 0 for r in case['roadms'].values())
     fibres = [e for ln in rec['before'] for e in ln['els'] if e['k'] in 'FR']
     d['fibre_at_or_above_max'] = any(e['len'] >= c['max'] for e in fibres)
-    # amplifier without operator delta_p (user or to-be-inserted) directly before a Raman run
-    hit = False
+    # (a) an amplifier without operator delta_p (user or to-be-inserted) in front of a span that contains a Raman fibre:
+    #     target_power -> span_loss -> estimate_raman_gain(power None)
+    # (b) a Raman fibre inside a fused run that ends with a plain fibre: add_fiber_padding -> span_loss(power None)
+    hit_a = hit_b = False
     for ln in rec['before']:
         els = ln['els']
         for i, e in enumerate(els):
             if e['k'] != 'R':
                 continue
             j = i - 1
-            while j >= 0 and els[j]['k'] in 'U':
+            while j >= 0 and (els[j]['k'] == 'U' or (els[j]['k'] in 'FR' and j + 1 < len(els) and (els[j + 1]['k'] == 'U' or els[j]['k'] == 'U'))):
                 j -= 1
             if j < 0:
-                hit = hit or (ln['src_kind'] == 'R' and i == 0)       # booster will be inserted
-                if ln['src_kind'] == 'R' and i > 0:
-                    hit = hit or False
+                hit_a = hit_a or ln['src_kind'] == 'R'                 # booster will be inserted (or the ROADM itself)
             elif els[j]['k'] == 'A':
-                hit = hit or els[j].get('op_dp') is None
-            elif els[j]['k'] in 'FR':
-                hit = hit or (j == i - 1)                              # inline amplifier will be inserted
-            # a Raman fibre inside a fused run that ends with a plain fibre: padding asks for its gain without power
+                hit_a = hit_a or els[j].get('op_dp') is None
+            else:
+                hit_a = True                                            # fibre-fibre junction: inline amplifier will be inserted
             k = i + 1
             while k < len(els) and els[k]['k'] == 'U':
                 k += 1
             if k < len(els) and k > i + 1 and els[k]['k'] == 'F':
-                hit = True
+                hit_b = True
+    hit = hit_a or hit_b
+    d['raman_in_fused_run'] = hit_b
     d['raman_gain_without_power'] = hit
     mxl = c['max']
     tg = max(mn, min(mxl, 90000))
@@ -837,7 +838,11 @@ def run(ctx):
             ctx.case(sc, False)
             ctx.violation('design_raises', f'designed_network raised {rec["exc"][:200]}', sc,
                           detail=classify_exception(case, rec))
-            if not tie and rec['exc_type'] in MODEL_EXCEPTIONS:
+            det = classify_exception(case, rec)
+            in_model = rec['exc_type'] in MODEL_EXCEPTIONS and (rec['exc_type'] != 'TypeError' or det['raman_in_fused_run'])
+            if not in_model:
+                ctx.count('exception_outside_chain_model')
+            if not tie and in_model:
                 terms.append(f'run_case ({cfg_term(cfg)}) {listlit([line_term(ln, dst_first(ln)) for ln in rec["before"]])}')
                 meta.append((sc, rec, None))
             continue
